@@ -863,10 +863,11 @@ static mi_segment_t* mi_segment_os_alloc( size_t required, size_t page_alignment
     mi_commit_mask_create_full(&commit_mask);
   }
   else {
-    // at least commit the info slices
-    const size_t commit_needed = _mi_divide_up((*pinfo_slices)*MI_SEGMENT_SLICE_SIZE, MI_COMMIT_SIZE);
+    // at least commit the info slices (a huge segment is always fully committed)
+    const size_t commit_needed = (required > 0 ? _mi_divide_up(segment_size, MI_COMMIT_SIZE) : _mi_divide_up((*pinfo_slices)*MI_SEGMENT_SLICE_SIZE, MI_COMMIT_SIZE));
     mi_assert_internal(commit_needed>0);
-    mi_commit_mask_create(0, commit_needed, &commit_mask);
+    if (required > 0) { mi_commit_mask_create_full(&commit_mask); }
+                 else { mi_commit_mask_create(0, commit_needed, &commit_mask); }
     mi_assert_internal(commit_needed*MI_COMMIT_SIZE >= (*pinfo_slices)*MI_SEGMENT_SLICE_SIZE);
     if (!_mi_os_commit(segment, commit_needed*MI_COMMIT_SIZE, NULL)) {
       _mi_arena_free(segment,segment_size,0,memid);
